@@ -7,10 +7,12 @@ import (
 	"encoding/binary"
 	"fmt"
 	"os"
+	"strings"
 
 	"github.com/xelaj/mtproto/internal/mode"
 	"github.com/xelaj/mtproto/internal/mtproto/messages"
 	"github.com/xelaj/mtproto/internal/transport"
+	"github.com/xelaj/mtproto/zverif/freepass"
 	"github.com/xelaj/mtproto/zverif/ref/mtp1"
 	"github.com/xelaj/mtproto/zverif/vr"
 )
@@ -102,8 +104,41 @@ func viaTransport(key, pkt []byte) result {
 	return r
 }
 
+// viaTransportStream reads all packets, in order, through ONE transport object (what a connection does).
+func viaTransportStream(key []byte, pkts [][]byte) []result {
+	var stream []byte
+	for _, p := range pkts {
+		stream = binary.LittleEndian.AppendUint32(stream, uint32(len(p)))
+		stream = append(stream, p...)
+	}
+	conn := &memConn{r: bytes.NewReader(stream)}
+	out := make([]result, len(pkts))
+	var t transport.Transport
+	var terr error
+	quiet(func() { t, terr = transport.VerifNewTransport(&informator{key}, conn, mode.Intermediate) })
+	if terr != nil {
+		return out
+	}
+	for i := range pkts {
+		r := &out[i]
+		var c messages.Common
+		var err error
+		r.panicked, r.pmsg, r.fr = vr.Try(func() { quiet(func() { c, err = t.ReadMsg() }) })
+		if !r.panicked && err == nil && c != nil {
+			r.ok = true
+			if e, isEnc := c.(*messages.Encrypted); isEnc {
+				r.m = mtp1.Msg{Salt: e.Salt, Session: e.SessionID, MsgID: e.MsgID, SeqNo: e.SeqNo, Body: e.Msg}
+			} else {
+				r.m = mtp1.Msg{MsgID: int64(c.GetMsgID()), Body: c.GetMsg(), Salt: -12345}
+			}
+		}
+	}
+	return out
+}
+
 func main() {
 	run := vr.New("C04", "fault_enumeration")
+	freepass.MaybeReplay(run)
 	run.Rule("base packets (R2-sealed server packets, 7 body lengths x 2 keys) x every single-bit flip of every byte, every truncation length, garbage ciphertext blocks, wrong key id / re-keying, attacker-with-key re-seals with every declared length in {-2^31,-1,2^31-1} u {len-33..len+33} x both msg_key choices, every msg_id parity; through messages.DeserializeEncrypted and through transport.ReadMsg; plus structural faults of unencrypted packets. non-trivial = distinct faulted packet (differs from the base packet)")
 	run.Assume("oracle: an altered, truncated or re-keyed packet must be refused with an error, except where the reference MTProto 1.0 peer itself opens it (an alteration confined to the unauthenticated padding): then exactly the message the reference opens may be returned; a re-seal whose declared length lies inside the plaintext and whose msg_key covers exactly that range is a legitimate message (body = declared range) and may be accepted as such or refused",
 		"acceptance of a bit-flipped packet would need a SHA-1 collision on msg_key; the oracle compares fields rather than relying on that")
@@ -314,6 +349,61 @@ func main() {
 			}
 		}
 	}
+	// ---- history on one connection: after the genuine packet, every block-aligned truncation of it, every
+	// shorter genuine packet followed by a truncation of the longer one, and the genuine packet again
+	for ki, key := range keys {
+		for _, n := range lens {
+			m := base(n)
+			pkt := mtp1.Seal(key, m, pat(mtp1.PadLen(n), func(i int) byte { return byte(0xe0 + i) }), 8)
+			small := base(0)
+			small.MsgID += 4
+			spkt := mtp1.Seal(key, small, pat(mtp1.PadLen(0), func(i int) byte { return byte(0x50 + i) }), 8)
+			pkts := [][]byte{pkt}
+			kinds := []string{"genuine"}
+			for l := 24 + 16; l < len(pkt); l += 16 {
+				pkts = append(pkts, pkt[:l])
+				kinds = append(kinds, fmt.Sprintf("truncated-to-%d-after-genuine", l))
+			}
+			pkts, kinds = append(pkts, spkt), append(kinds, "genuine-short")
+			for l := 24 + 16; l < len(pkt); l += 16 {
+				pkts = append(pkts, pkt[:l])
+				kinds = append(kinds, fmt.Sprintf("truncated-to-%d-after-short", l))
+			}
+			pkts, kinds = append(pkts, pkt), append(kinds, "genuine-again")
+			res := viaTransportStream(key, pkts)
+			for i, r := range res {
+				id := fmt.Sprintf("transport history k%d n%d #%d %s", ki, n, i, kinds[i])
+				run.Eval(id, true)
+				rep := map[string]any{"fault": "transport-history", "key": ki, "len": n, "index": i}
+				curKey, curPkt = key, pkts[i]
+				switch {
+				case strings.HasPrefix(kinds[i], "genuine"):
+					want := m
+					if kinds[i] == "genuine-short" {
+						want = small
+					}
+					if !r.ok || !r.m.Equal(want) {
+						run.Violation("transport.ReadMsg|history|genuine-not-accepted", fmt.Sprintf("%s: %+v", id, r), rep)
+					}
+				default:
+					check("transport.ReadMsg", "history-truncated-block-aligned", id, rep, r)
+				}
+			}
+		}
+	}
+	// ---- no auth key yet (during the key exchange the session has none): a packet that looks encrypted and
+	// carries the key id of the empty key must be refused like any other, through both entries
+	for _, nokey := range [][]byte{nil, {}} {
+		for blocks := 0; blocks <= 3; blocks++ {
+			q := append(append([]byte{}, mtp1.KeyID(nokey)...), pat(16+16*blocks, func(i int) byte { return byte(i*11 + 3) })...)
+			for entry, f0 := range entries {
+				id := fmt.Sprintf("%s no-auth-key-yet blocks=%d nil=%v", entry, blocks, nokey == nil)
+				run.Eval(id, true)
+				curKey, curPkt = nil, nil
+				check(entry, "no-auth-key-yet", id, map[string]any{"fault": "no-key", "blocks": blocks, "entry": entry}, f0(nokey, q))
+			}
+		}
+	}
 	// ---- unencrypted packets: structural faults
 	for _, n := range []int{0, 4, 20, 64} {
 		body := pat(n, func(i int) byte { return byte(i + 1) })
@@ -366,5 +456,6 @@ func main() {
 	run.Sample(map[string]any{"fault": "flip", "entry": "transport.ReadMsg", "len": 12, "bit": 200})
 	run.Sample(map[string]any{"fault": "declared", "len": 16, "d": -1, "msg_key": "over whole plaintext"})
 	run.Sample(map[string]any{"fault": "truncate", "len": 28, "to": 23})
+	freepass.Run(run, run.ID, freepass.Rounds(run))
 	run.Finish()
 }
